@@ -157,21 +157,53 @@ def run_case(case):
                     sim.add(m=r.choice([0.0, 1e-8, 1e-6]), x=r.uniform(-5, 5), y=r.uniform(-5, 5), z=r.uniform(-0.5, 0.5), vx=r.uniform(-0.1, 0.1), vy=r.uniform(-3, 3), vz=r.uniform(-0.1, 0.1))
                 sim.softening = 0.05
                 desc = 'sei OMEGA %r' % sim.ri_sei.OMEGA
+            elif r.random() < 0.25:
+                # an unbound body flying past the star (regular, non-chaotic motion as well): coarse steps that span pericentre send the
+                # Kepler solver through its hyperbolic branches, in both directions of time
+                sim = rebound.Simulation()
+                sim.add(m=1.0)
+                fdt = r.choice([0.02, 0.3, 1.0]) * r.choice([1, -1])
+                if abs(fdt) < 0.1 and r.random() < 0.6:
+                    # a resolved inner planet (period >= 0.35); with the coarse steps it would be outside every scheme's domain
+                    sim.add(m=10 ** r.uniform(-6, -3), a=r.uniform(0.15, 0.25), e=r.uniform(0, 0.1), f=r.uniform(0, 6.28))
+                ecc = r.uniform(1.1, 3.0)
+                finf = math.acos(-1.0 / ecc)
+                sim.add(m=r.choice([0.0, 1e-6, 1e-4]), a=-1.0, e=ecc, f=r.uniform(-0.85, 0.85) * finf, inc=r.uniform(0, 0.5), primary=sim.particles[0])
+                sim.move_to_com()
+                sim.integrator = integ
+                for k_, v_ in opts.items():
+                    gen.set_path(sim, k_, v_)
+                sim.dt = fdt
+                desc = '%s opts %r hyperbolic flyby e=%.2f' % (integ, opts, ecc)
+                flyby = True
+                counters['flyby_roundtrips'] = counters.get('flyby_roundtrips', 0) + 1
             else:
                 sysd = gen.planetary_system(rr, r.randint(1, 5))
                 spec = dict(integrator=integ, system=sysd, opts=opts, dt=gen.inner_period(sysd) / r.choice([17.3, 25.1, 40.7, 100.0]) * r.choice([1, -1]))
                 sim = gen.build_sim(spec)
                 desc = '%s opts %r' % (integ, opts)
             s0 = [(p.x, p.y, p.z, p.vx, p.vy, p.vz) for p in sim.particles]
-            n = r.choice([1, 2, 5, 20, 100, 400])
+            n = r.choice([1, 2, 5, 20, 100, 400]) if not locals().get('flyby') else r.choice([1, 2, 5, 25])
             sim.steps(n)
             sim.synchronize()
+            sturn = [(p.x, p.y, p.z, p.vx, p.vy, p.vz) for p in sim.particles]
             sim.dt = -sim.dt
             sim.steps(n)
             sim.synchronize()
             s1 = [(p.x, p.y, p.z, p.vx, p.vy, p.vz) for p in sim.particles]
             counters['symmetric_roundtrips'] += 1
             sc = max(max(abs(x_) for x_ in p) for p in s0)
+            if locals().get('flyby'):
+                flyby = False
+                scf = max(sc, max(max(abs(x_) for x_ in p) for p in sturn))
+                d = max(max(abs(x_ - y_) for x_, y_ in zip(p, q)) for p, q in zip(s0, s1))
+                counters['max_flyby_ratio_x1e15:' + integ] = max(counters.get('max_flyby_ratio_x1e15:' + integ, 0), int(d / scf * 1e15))
+                # rounding errors are amplified along the diverging hyperbolic trajectory: relative 1e-9 of the largest coordinate met
+                # (measured: below 1e-12); a wrong branch of the solver misses by O(1)
+                if gt(d, 1e-9 * scf):
+                    add('reverse:not-to-rounding:%s:hyperbolic-flyby' % integ, '%s n=%d dt=%r: max|diff| %.3e, scale %.3e' % (desc, n, sim.dt, d, scf))
+                cells.add(json.dumps(['flyby', integ, sorted(opts.items())]))
+                continue
             d = max(max(abs(x_ - y_) for x_, y_ in zip(p, q)) for p, q in zip(s0, s1))
             ratio = d / (EPS * n * sc)
             counters['max_ratio_x1000:' + integ] = max(counters.get('max_ratio_x1000:' + integ, 0), int(ratio * 1000))
